@@ -31,7 +31,7 @@ RULE = ("complete enumeration of (1) all inheritance graphs on n named entries w
 WIT = ["inherit_ok", "inherit_missing_parent", "inherit_cycle", "inherit_excluded_key_skipped", "inherit_diamond_or_chain",
        "range_len1", "range_len2", "range_len3plus", "count_group", "two_groups", "rejected_declaration",
        "inherited_range_ignored", "access_subset", "uniform", "const", "normal", "expon", "malformed_spec_rejected",
-       "builtin_class_resolved", "user_class_resolved", "class_error_reported", "legacy_key_equal", "legacy_both_rejected", "class_resolution_sequences", "inherited_count", "entity_through_extends", "agent_int_parameter", "agent_endowment"]
+       "builtin_class_resolved", "user_class_resolved", "class_error_reported", "legacy_key_equal", "legacy_both_rejected", "class_resolution_sequences", "inherited_count", "entity_through_extends", "agent_int_parameter", "agent_endowment", "related_namesakes_reported"]
 
 # ---------------------------------------------------------------------------------------------- 1
 
@@ -442,7 +442,10 @@ def class_cases():
                 out.append(("builtin", mod.__name__, name))
     out += [("sequence", None, "UserX"), ("sequence", None, "FCNAgent"), ("sequence", None, "Market"),
             ("user", None, "UserX"), ("unknown", None, "Nope"), ("unknown_with_list", None, "Nope"),
-            ("dup_user", None, "UserX"), ("clash", None, "Market")]
+            ("dup_user", None, "UserX"), ("clash", None, "Market"),
+            # namesakes that are RELATED: a class keeping the name of the class it extends (a built-in one, or another registered one)
+            ("clash_sub", None, "FCNAgent"), ("clash_sub", None, "Market"), ("clash_sub", None, "OrderMistakeShock"),
+            ("dup_user_sub", None, "base_first"), ("dup_user_sub", None, "derived_first")]
     # the same through a runner: classes handed to class_register, then a configuration naming them
     out += [("runner", None, k) for k in ("one_user_class", "two_classes_same_name", "two_classes_same_name_other_between",
                                           "same_class_twice", "clash_with_builtin", "two_runners_same_name")]
@@ -542,6 +545,21 @@ def class_fn(case, wit):
         if find_class("UserX", [UserX]) is not UserX:
             raise Violation("C18.class_user", "a registered user class does not resolve", "")
         wit.inc("user_class_resolved")
+    elif kind in ("clash_sub", "dup_user_sub"):
+        if kind == "clash_sub":
+            base = find_class(name)
+            sub = type(name, (base,), {})
+            args = (name, [sub])
+        else:
+            sub = type("UserX", (UserX,), {})
+            args = ("UserX", [UserX, sub] if name == "base_first" else [sub, UserX])
+        try:
+            got = find_class(*args)
+        except AttributeError:
+            wit.inc("related_namesakes_reported")
+            return (kind, name)
+        raise Violation("C18.class_ambiguous", "an unknown or ambiguous class name was resolved instead of reported",
+                        "two classes named %s, one a subclass of the other (%s): resolved to %r" % (args[0], name, got))
     else:
         args = {"unknown": ("Nope", None), "unknown_with_list": ("Nope", [UserX]), "dup_user": ("UserX", [UserX, UserX]),
                 "clash": ("Market", [_Clash])}[kind]
